@@ -646,4 +646,6 @@ def bytes_to_str(b):
 
 
 def unquote_to_wsgi_str(string):
-    return urllib.parse.unquote_to_bytes(string).decode('latin-1')
+    # the path is the latin-1 image of the raw bytes: encode it back the
+    # same way, or unquote_to_bytes() re-encodes 8-bit characters as UTF-8
+    return urllib.parse.unquote_to_bytes(string.encode('latin-1')).decode('latin-1')
